@@ -281,6 +281,19 @@ def cli_part(chk):
                                                  "F": {"executable": core.PY, "args": "-S " + os.path.join(d, "harness.py"), "path": d,
                                                        "build": ["echo '{brace}'; exit 1"]}})
         expect("failing build", ["-D", "c.yaml"], 1, raw=bad_build, script={})
+        # an empty build script (schema-valid) is an empty script: the shell must not read what ReBench's own standard input holds
+        empty_build = cli_config(d, ["Ba"], execs={"E": {"executable": core.PY, "args": "-S " + os.path.join(d, "harness.py"), "build": [""]}})
+        cli.write_yaml(os.path.join(d, "c.yaml"), empty_build)
+        cli.set_script(d, {})
+        if os.path.exists(os.path.join(d, "c10.data")):
+            os.remove(os.path.join(d, "c10.data"))
+        rc_e, out_e, err_e = cli.rebench(["-D", "c.yaml"], d, stdin_text="echo INJECTED > %s\n" % os.path.join(d, "injected.txt"))
+        nses += 1
+        if os.path.exists(os.path.join(d, "injected.txt")) or cli.has_traceback(out_e, err_e) or rc_e != 0:
+            chk.violation("C10 an empty build script is an empty script (it does not execute what ReBench's standard input holds)",
+                          dict(scenario="build: [\"\"] with text on standard input", config=empty_build), "rc 0, nothing executed from standard input",
+                          dict(rc=rc_e, injected=os.path.exists(os.path.join(d, "injected.txt")), err=err_e[-300:]))
+        chk.case(("cli", "empty build script"))
         expect("unknown gauge adapter", ["-D", "c.yaml"], 1, raw=cli_config(d, ["Ba"], extra_suite={"gauge_adapter": "NoSuch{x}"}), script={})
         # usage and configuration errors
         cli.write_yaml(os.path.join(d, "c.yaml"), ok3)
